@@ -805,6 +805,14 @@ qb_ipcs_us_connect(struct qb_ipcs_service *s,
 	c->request.u.us.sock = c->setup.u.us.sock;
 	c->response.u.us.sock = c->setup.u.us.sock;
 
+	/* Set correct ownership if qb_ipcs_connection_auth_set() has been used */
+	(void)strlcpy(path, c->description, sizeof(path));
+	shm_ptr = strrchr(path, '/');
+	if (shm_ptr) {
+		*shm_ptr = '\0';
+		(void)chown(path, c->auth.uid, c->auth.gid);
+	}
+
 	snprintf(r->request, NAME_MAX, "%s-control-%s",
 		 c->description, s->name);
 	snprintf(r->response, NAME_MAX, "%s-%s", c->description, s->name);
